@@ -60,6 +60,25 @@ fn c12_reference_config(subject: &Config) -> Config {
   }
 }
 
+/// In a quarter of the update calls a second caller of `Index::update` wins
+/// the write lock right after one of the first mid-batch commits and indexes
+/// to the tip; the first caller has blocks queued by its prefetch thread and
+/// must notice ("another update has run between committing and beginning the
+/// new write transaction"). Only with a full UTXO index: the fetcher's batch
+/// bookkeeping of the simulator is per update.
+pub fn compete(ops: &mut [Op], rng: &mut Rng, fetch_path: bool) {
+  if fetch_path {
+    return;
+  }
+  for op in ops.iter_mut() {
+    if let Op::Update(u) = op
+      && rng.chance(1, 4)
+    {
+      u.competing_update = Some(rng.below(3) as u32);
+    }
+  }
+}
+
 /// Thorough tier: for one small chain per batch, EVERY partition of its blocks
 /// into update calls x every commit interval 1..n x {never reopen, reopen
 /// between all calls}.
@@ -142,6 +161,7 @@ pub fn gen_c12(seed: u64, thorough: bool) -> Scenario {
   let fetch_path = !(config.index_sats || config.index_addresses);
   let mut ops = schedule_ops(&mut srng, blocks, fetch_path, false, true);
   ops.push(Op::Update(gen_transparent_update(&mut srng, fetch_path)));
+  compete(&mut ops, &mut srng, fetch_path);
   Scenario {
     seed,
     profile: "C12/twin-schedule".into(),
